@@ -234,13 +234,28 @@ class Gen:
                 self.declare(iv, INT)
                 self.declare(v, INT)
                 clause_vars += [iv, v]
-            else:
+            elif k < 0.96:
                 a, b = self.name("a"), self.name("b")
                 pairs = ("list", [("list", [("int", r.randint(0, 5)), ("int", r.randint(0, 5))]) for _ in range(r.randint(0, 3))])
                 cs.append(("in2", a, b, pairs))
                 self.declare(a, INT)
                 self.declare(b, INT)
                 clause_vars += [a, b]
+            elif k < 0.985:
+                # head / rest iteration over rows of different lengths (a row as long as the pattern included)
+                a, b = self.name("a"), self.name("t")
+                rows = ("list", [("list", [("int", r.randint(0, 5)) for _ in range(r.choice([1, 2, 2, 3, 3, 0 if r.random() < 0.1 else 2]))])
+                                 for _ in range(r.randint(1, 3))])
+                cs.append(("insplat", a, b, rows))
+                self.declare(a, INT)
+                self.declare(b, LST)
+                clause_vars += [a, b]
+            else:
+                iv, v = self.name("i"), self.name("t")
+                cs.append(("idxsplat", iv, v, self.expr(LST, depth + 1)))
+                self.declare(iv, INT)
+                self.declare(v, LST)
+                clause_vars += [iv, v]
         return cs
 
     def for_expr(self, depth, want):
